@@ -89,6 +89,13 @@ func makeBases(seed int64) *baseInputs {
 }
 
 func textFault(base, kind string, at int, val string) string {
+	if val == "selchain" {
+		// a chain of array / map selectors on a call result (dedicated probe: the node signature must not grow faster than the text)
+		if kind == "insert" && at < 4 && (strings.HasPrefix(strings.TrimSpace(base), "rule") || strings.HasPrefix(strings.TrimSpace(base), "Rule") || strings.HasPrefix(strings.TrimSpace(base), "RULE")) {
+			return "rule S { when F.Get()" + strings.Repeat("[0]", 12+2*at) + " == 1 then F.X = 1; }"
+		}
+		return base
+	}
 	if val == "longchain" {
 		// one very long access chain in an otherwise valid rule (dedicated probe of a known finding)
 		if strings.HasPrefix(strings.TrimSpace(base), "rule") || strings.HasPrefix(strings.TrimSpace(base), "Rule") || strings.HasPrefix(strings.TrimSpace(base), "RULE") {
